@@ -90,8 +90,10 @@ Definition plain_value (tpl : list part) (pid : list Z) (ctx idx : Z) : result Z
 (* defaults chosen by UniqueId.Functions.NumericIdGenerator / AlphaCodeGenerator *)
 Definition default_numeric_tpl (big : bool) : list part :=
   if big then [PPid; PContext; PIndex] else [PContext; PIndex].
+(* since fix 73af7bb the small-id default of AlphaCodeGenerator contains the context as well
+   (it used to be `index` alone: every default alpha generator emitted the same codes) *)
 Definition default_alpha_tpl (big : bool) : list part :=
-  if big then [PPid; PContext; PIndex] else [PIndex].
+  if big then [PPid; PContext; PIndex] else [PContext; PIndex].
 Definition factory_tpl (dflt : list part) (user : option (list part)) : list part :=
   match user with Some t => t | None => dflt end.
 
@@ -298,3 +300,20 @@ Definition dgen_draws (mask : Z -> Z -> Z) (nbits : Z -> Z) (g : dgen) : list (r
    pairwise distinctness) *)
 Definition process_draws (mask : Z -> Z -> Z) (nbits : Z -> Z) (gens : list dgen)
   : list (result Z) := flat_map (dgen_draws mask nbits) gens.
+
+(* A default alpha generator of one process (made by `unique_alpha_code` or by
+   `UniqueId.AlphaCodeGenerator` without a template): id mode, pid, context number, min_chars
+   and the number of codes drawn so far (its counter starts at alpha_start). *)
+Record agen := mkAgen { ag_big : bool; ag_pid : list Z; ag_ctx : Z; ag_min_chars : Z; ag_n : nat }.
+
+Definition agen_draws (mask : Z -> Z -> Z) (nbits bpc : Z -> Z) (abc : list Z) (rc : bool) (g : agen)
+  : list (result (list Z)) :=
+  map (fun i => alpha_value mask nbits bpc (mkAlpha abc (ag_min_chars g) rc)
+                            (default_alpha_tpl (ag_big g)) (ag_pid g) (ag_ctx g) i)
+      (Zseq alpha_start (ag_n g)).
+
+(* every code drawn in the process from default alpha generators over one alphabet with one
+   randomize_codes flag (min_chars may differ from generator to generator) *)
+Definition aprocess_draws (mask : Z -> Z -> Z) (nbits bpc : Z -> Z) (abc : list Z) (rc : bool)
+           (gens : list agen) : list (result (list Z)) :=
+  flat_map (agen_draws mask nbits bpc abc rc) gens.
